@@ -514,17 +514,17 @@ unsafe fn dispose_general_node<T: RcObject>(
             let next_ref = next_ptr.deref();
             let link_epoch = next_ptr.high_tag() as u32;
 
-            // The cascade into an earlier edge may have run for many epochs (this thread is
-            // re-pinned on the way). A stamp written meanwhile lies outside the window that was
-            // built on entry and would be ordered as the oldest one, so order the stamps of each
-            // edge in a window anchored at the present epoch.
-            let modu: Modular<EPOCH_WIDTH> = Modular::new(global_epoch() as isize + 1);
-
             // Decrement next node's strong count and update its epoch.
             let next_cnt = loop {
                 #[cfg(feature = "circ_verif")]
                 crate::verif::yp(crate::verif::site::DISPOSE_CHILD_LOAD, &next_ref.state as *const AtomicU64 as usize);
                 let cnt_curr = State::from_raw(next_ref.state.load(Ordering::SeqCst));
+                // Order the three stamps in a window anchored at an epoch read *after* the child's
+                // word: the cascade into an earlier edge may have run for many epochs (this thread
+                // is re-pinned on the way), and between two attempts of this loop another cascade
+                // may have written a stamp that is recent (or looks recent) at its own, later
+                // epoch. In a window built earlier such a stamp would be ordered as the oldest.
+                let modu: Modular<EPOCH_WIDTH> = Modular::new(global_epoch() as isize + 1);
                 let next_epoch =
                     modu.max(&[node_epoch as _, link_epoch as _, cnt_curr.epoch() as _]);
                 let cnt_next = cnt_curr.sub_strong(1).with_epoch(next_epoch as _);
